@@ -98,7 +98,7 @@ MutSet(t, k) ==
   \cup { [kind |-> "scalar", slot |-> "d1", j |-> kk, how |-> h] : kk \in 0..(t-1), h \in {"rand", "zero", "plus1", "noncanon"} }
   \cup { [kind |-> "point", slot |-> sl, j |-> 0, how |-> h] : sl \in {"A", "A1", "B"}, h \in {"rand", "identity", "undecodable", "other"} }
   \cup { [kind |-> "point", slot |-> sl, j |-> jj, how |-> h] : sl \in {"L", "R"}, jj \in 0..(k-1), h \in {"rand", "identity", "undecodable", "other"} }
-  \cup { [kind |-> "rounds", slot |-> "none", j |-> d, how |-> "none"] : d \in {-1, 1, 2} }
+  \cup { [kind |-> "rounds", slot |-> "none", j |-> d, how |-> "none"] : d \in {-1, 1, 2, 30, 61, 62, 63, 64, 70} }
   \cup { [kind |-> "tag", slot |-> "none", j |-> tt, how |-> "none"] : tt \in (0..8) \ {t} }
   \cup { [kind |-> "bytes", slot |-> "none", j |-> 0, how |-> h] : h \in {"trailing1", "trailing32", "truncate1", "truncate32"} }
 VChanges(mb) ==
@@ -143,13 +143,17 @@ Kind(n, t, kd) ==
     [] kd = "xp"   -> [Plain(n, t, 2, 4, 0) EXCEPT !.mut = [kind |-> "point", slot |-> "L", j |-> 0, how |-> "rand"]]
     [] kd = "xv"   -> [Member(n, t, 1, 1, "mid", "mid", 0, "lt", "lt", 0, 1, 0, "chacha") EXCEPT !.v.proms[1] = None]
     [] kd = "xl"   -> [Plain(n, t, 1, 1, 1) EXCEPT !.v.label = 1]
+    [] kd = "xr"   -> [Plain(n, t, 2, 2, 0) EXCEPT !.mut = [kind |-> "rounds", slot |-> "none", j |-> -1, how |-> "none"]]   \* too few rounds
+    [] kd = "xk"   -> [Plain(n, t, 1, 1, 0) EXCEPT !.mut = [kind |-> "rounds", slot |-> "none", j |-> 1, how |-> "none"]]    \* too many rounds
     [] kd = "dn"   -> Plain(IF n = 4 THEN 8 ELSE 4, t, 1, 1, 0)                      \* disagrees on bit length
     [] kd = "dt"   -> Plain(n, IF t = 1 THEN 2 ELSE 1, 1, 1, 0)                      \* disagrees on degree
     [] kd = "dh"   -> LET mb == Plain(n, t, 1, 1, 0) IN [mb EXCEPT !.v.pgH = 1]      \* disagrees on H (and is invalid)
     [] kd = "dg"   -> LET mb == Plain(n, t, 1, 1, 0) IN [mb EXCEPT !.v.pgG = 1]      \* disagrees on G_1
+    [] kd = "dh8"  -> LET mb == Plain(n, t, 8, 8, 0) IN [mb EXCEPT !.v.pgH = 1]      \* disagrees on H and is the largest member
+    [] kd = "dg8"  -> LET mb == Plain(n, t, 8, 16, 0) IN [mb EXCEPT !.v.pgG = t]     \* disagrees on the last G_k, largest member
 ValidKinds == {"v1", "v1s", "v2", "v4c8"}
-BadKinds == {"xs", "xp", "xv", "xl"}
-DisKinds == {"dn", "dt", "dh", "dg"}
+BadKinds == {"xs", "xp", "xv", "xl", "xr", "xk"}
+DisKinds == {"dn", "dt", "dh", "dg", "dh8", "dg8"}
 Pattern(pt, x) == CASE pt = 1 -> "v1" [] pt = 2 -> (IF x % 2 = 1 THEN "v1s" ELSE "v2") [] pt = 3 -> (IF x % 3 = 0 THEN "v4c8" ELSE IF x % 3 = 1 THEN "v1s" ELSE "v1")
 FamBatch ==
   LET MaxK == 3 * MaxBatch + 1
@@ -174,8 +178,11 @@ FamRecover ==
                     lb \in {0}, rng \in (IF Quick THEN {"chacha"} ELSE {"chacha", "zero"}), vs \in {0, 1, 2}, mode \in Modes,
                     mu \in {NoMut, [kind |-> "scalar", slot |-> "d1", j |-> 0, how |-> "plus1"], [kind |-> "point", slot |-> "A1", j |-> 0, how |-> "rand"]} }
       Mix == { Scen([x \in 1..Len(ks) |-> Kind(8, t, ks[x])], mode, NoSkew, FALSE) :
-                 ks \in UNION { [1..k -> {"v1", "v1s", "v2"}] : k \in 2..(IF Quick THEN 3 ELSE 4) }, t \in {1, 3}, mode \in Modes }
-  IN {s \in Single : s.members[1].n > 1 \/ s.members[1].mut.kind = "none"} \cup Mix
+                 ks \in UNION { [1..k -> {"v1", "v1s", "v2"}] : k \in 2..(IF Quick THEN 3 ELSE 4) }, t \in {1, 3, 6}, mode \in Modes }
+      \* a blinding vector with zero components (all of them, for the one commitment)
+      Zb == { One([[Member(n, t, 1, 1, "mid", vs, 1, "none", "none", 1, ps_seed, 0, "chacha") EXCEPT !.v.seed = vs2] EXCEPT !.zb = 1], mode) :
+                n \in {8, 64}, t \in {1, 2, 6}, vs \in {"zero", "mid"}, ps_seed \in {0, 1}, vs2 \in {0, 1, 2}, mode \in Modes }
+  IN {s \in Single : s.members[1].n > 1 \/ s.members[1].mut.kind = "none"} \cup Mix \cup Zb
 
 (***************************************************************************************************)
 (* capacity (C12)                                                                                    *)
